@@ -23,9 +23,12 @@ def run():
                   key="execute:move:C18")]
     e1.run_harnesses(rep, "C18", src, specs, jobs=2, timeout=1500 if tier() == "quick" else 3600,
                      replayer=e1.fs_replayer("faults", {"fs_move": "move"}))
+    from obligations import C18_e2
+    from common import Inconclusive, Obligation
     try:
-        from obligations import C18_e2
         C18_e2.add(rep)
-    except ImportError:
-        pass
+    except Inconclusive as ex:
+        o = Obligation("move_target mapping", "E2 mirsym/z3")
+        o.verdict, o.detail = "inconclusive", str(ex)
+        rep.add(o)
     return rep
